@@ -1,5 +1,13 @@
 # Per-property configuration of the orchestrator (bin/check).
 PROPS = {
+    "C20": {
+        "pkg": "c20", "level": "exploration",
+        "rule": "Five families of seeded sub-cases, run in blocks: (paths) every GetArchivePathTo* builder on valid names (unicode letters/digits/hyphen, connector punctuation for labels, KSUIDs incl. min/max, user-named splits, indices incl. 2^63 and 2^64-1) parsed back with GetArchivePathComponents and entered in a path->identity map; (consumable) GetConsumablePathTo* vs GetConsumableStorePathMetadata; (generated) IsGeneratedFile vs an independent first-component predicate on reserved names and near misses; (descriptors) randomly populated descriptors of 8 types through yaml marshal/unmarshal; (validation) ValidateRepo/ValidateLabel vs the documented alphabets. distinct_nontrivial counts distinct generated paths / names / serialized descriptors.",
+        "technique": "runtime monitoring: round-trip and differential oracles (independent predicate, identity map) over seeded boundary-biased inputs",
+        "level_text": "Thousands of generated names, identifiers, indices and descriptors are pushed through the real builders/parsers/validators and compared with the inputs and with independent predicates; exploration is the right level for pure functions over unbounded domains.",
+        "level_note": "Trusted: the independent generated-path predicate (first component after an optional leading ./ or / is exactly .datamon, .conflicts or .checkpoints) and the alphabet classification via package unicode. Characters whose membership in 'hyphen' is debatable are not judged. Descriptor equality is semantic (times by instant, nil == empty slice).",
+        "assumptions": ["bundle/diamond/generation IDs are KSUIDs", "descriptor equality is semantic"],
+    },
     "C21": {
         "pkg": "c21", "level": "exploration",
         "rule": "Seeded parameter sets for FUSEParamsToEnvVars / PGParamsToEnvVars (0..4 bundles / 0..3 databases, optional fields present or empty, sleep flag) with values from four classes: ordinary [a-z0-9/_-], printable ASCII, unicode, and alphabet-exhausting values that contain every character from '0' up to a PRNG bound so the chosen separators climb through the letters used as parameter names. Each encoded variable is decoded by a reference decoder written from the documented format and compared with the parameters given. A case is non-trivial when encoding succeeded and was decoded; distinct by its full parameter set.",
